@@ -184,3 +184,14 @@ v('c01-concat-rr', ['C01'], RX, "_ if *e1 == *e2 => self.make(BaseRegLan::Loop(e
 v('c01-wrapper-swap', ['C01'], 'src/smt_regular_expressions.rs', "MANAGER.with(|m| m.borrow_mut().diff(r1, r2))", "MANAGER.with(|m| m.borrow_mut().diff(r2, r1))", 'C01.R5/wrapper:re_diff')
 v('c01-smt_range', ['C01'], RX, "            if c1 <= c2 {\n                return self.char_set(CharSet::range(c1, c2));", "            if c1 < c2 {\n                return self.char_set(CharSet::range(c1, c2));", 'C01.R5/smt_range')
 v('c01-make-new-const', ['C01'], RX, "let sigma_plus = store.make(BaseRegLan::Loop(sigma, LoopRange::plus()));", "let sigma_plus = store.make(BaseRegLan::Loop(sigma, LoopRange::star()));", 'C01.R2')
+
+# ---- C18
+v('prefix-C18-inter', ['C18'], RX, """            BaseRegLan::Union(args) => args.iter().any(|x| self.start_char(x, c)),
+            BaseRegLan::Inter(_) | BaseRegLan::Complement(_) => {""", """            BaseRegLan::Union(args) => args.iter().any(|x| self.start_char(x, c)),
+            BaseRegLan::Inter(args) => args.iter().all(|x| self.start_char(x, c)),
+            BaseRegLan::Complement(_) => {""", 'C18.R1/start_char/arm:Inter')
+v('prefix-C18-concat', ['C18'], RX, "                self.start_char(e1, c) && !self.is_empty_re(e2)\n                    || e1.nullable && self.start_char(e2, c)", "                self.start_char(e1, c) || e1.nullable && self.start_char(e2, c)", 'C18.R1/start_char/arm:Concat')
+v('c18-union-all', ['C18'], RX, "BaseRegLan::Union(args) => args.iter().any(|x| self.start_char(x, c)),", "BaseRegLan::Union(args) => args.iter().all(|x| self.start_char(x, c)),", 'C18.R1/start_char/arm:Union')
+v('c18-concat-nullable', ['C18'], RX, "                    || e1.nullable && self.start_char(e2, c)", "                    || self.start_char(e2, c)", 'C18.R1/start_char/arm:Concat')
+v('c18-start-class-rep', ['C18'], RX, "            let c = e.pick_class_rep(cid);\n            Ok(self.start_char(e, c))", "            let c = e.pick_class_rep(ClassId::Complement);\n            Ok(self.start_char(e, c))", 'C03.R4/start_class')
+v('c18-epsilon', ['C18'], RX, "            BaseRegLan::Epsilon => false,\n            BaseRegLan::Range(set) => set.contains(c),", "            BaseRegLan::Epsilon => true,\n            BaseRegLan::Range(set) => set.contains(c),", 'C18.R1/start_char/arm:Epsilon')
